@@ -93,6 +93,27 @@ Section NpDot.
           (fun o => sum_idx (a_shape a)
                       (fun ix => if es_consistent lhs ix && idx_eqb (es_proj lhs rhs ix) o then a_at a ix else vzero)).
 
+  (* np.kron of two arrays with the same number of axes: shape = the products of the extents,
+       out[ix] = a[ix // b.shape] * b[ix % b.shape]   (per axis) *)
+  Definition kdiv (bs : shape) (ix : idx) : idx := map (fun p => fst p / snd p) (combine ix bs).
+  Definition kmod (bs : shape) (ix : idx) : idx := map (fun p => fst p mod snd p) (combine ix bs).
+  Definition np_kron (a b : arr) : arr :=
+    mkArr (map (fun p => fst p * snd p) (combine (a_shape a) (a_shape b)))
+          (fun ix => vmul (a_at a (kdiv (a_shape b) ix)) (a_at b (kmod (a_shape b) ix))).
+
+  (* np.matmul on stacks of matrices: a has shape sha ++ [m; n], b has shape shb ++ [n; p], the batch shapes
+     sha, shb have the same length and broadcast (an extent 1 is repeated):
+       out[t ++ [i; k]] = sum_j a[bc sha t ++ [i; j]] * b[bc shb t ++ [j; k]] *)
+  Definition bcast_idx (sh : shape) (t : idx) : idx := map (fun p => if fst p =? 1 then 0 else snd p) (combine sh t).
+  Definition np_matmul_batch (sha shb : shape) (n : Z) (a b : idx -> V) : idx -> V :=
+    fun ix =>
+      let nb := length sha in
+      let t := firstn nb ix in
+      match skipn nb ix with
+      | [i; k] => sum_over n (fun j => vmul (a (bcast_idx sha t ++ [i; j])) (b (bcast_idx shb t ++ [j; k])))
+      | _ => vzero
+      end.
+
   (* row-major table of a matrix-valued function *)
   Definition mat_flat (m p : Z) (f : Z -> Z -> V) : list V :=
     flat_map (fun i => map (fun k => f i k) (zrange p)) (zrange m).
